@@ -372,11 +372,19 @@ fn b_cases(th: bool) -> Vec<BCase> {
         ("bin5", vec![vec![1, 2], vec![3, 4], vec![], vec![], vec![]], vec![0]),
         ("two-roots", vec![vec![2], vec![3], vec![], vec![4], vec![]], vec![0, 1]),
         ("bin7", vec![vec![1, 2], vec![3, 4], vec![5, 6], vec![], vec![], vec![], vec![]], vec![0]),
+        // wide fans: a queue of 5-7 jobs meets 1-3 idle workers (every queue length / piece count combination)
+        ("fan5", vec![vec![1, 2, 3, 4, 5], vec![], vec![], vec![], vec![], vec![]], vec![0]),
+        ("fan7", vec![vec![1, 2, 3, 4, 5, 6, 7], vec![], vec![], vec![], vec![], vec![], vec![], vec![]], vec![0]),
+        ("fan4-then-2", vec![vec![1, 2, 3, 4], vec![5, 6], vec![], vec![], vec![], vec![], vec![]], vec![0]),
     ];
     let mut v = Vec::new();
     for (n, t, roots) in &trees {
-        for nw in if th { vec![2usize, 3] } else { vec![2usize] } {
-            if nw == 3 && t.len() > 5 {
+        let wide = n.starts_with("fan") && t.len() > 4;
+        for nw in if th { vec![2usize, 3, 4] } else if wide { vec![2usize, 3, 4] } else { vec![2usize] } {
+            if nw == 3 && t.len() > 5 && !wide {
+                continue;
+            }
+            if nw == 4 && (!wide || (!th && *n != "fan5")) {
                 continue;
             }
             v.push(BCase { name: format!("{n}/w{nw}/normal"), tree: t.clone(), roots: roots.clone(), scripts: vec![Script::Normal; nw] });
@@ -394,6 +402,8 @@ fn b_cases(th: bool) -> Vec<BCase> {
 struct BObs {
     processed: Vec<(usize, u32)>,
     exits: usize,
+    /// workers whose thread ended with a panic
+    panicked: Vec<usize>,
 }
 
 fn run_market(case: &BCase, schedule: &[usize], horizon: usize) -> (BObs, RunTrace) {
@@ -445,16 +455,19 @@ fn run_market(case: &BCase, schedule: &[usize], horizon: usize) -> (BObs, RunTra
     }
     let tr = drive(&s, &all, &all, schedule, ClockPolicy::Mintime, horizon);
     let mut exits = 0;
+    let mut panicked: Vec<usize> = Vec::new();
     if tr.end == RunEnd::AllExited {
-        for h in handles {
-            let _ = h.join();
+        for (w, h) in handles.into_iter().enumerate() {
+            if h.join().is_err() {
+                panicked.push(w);
+            }
             exits += 1;
         }
     }
     s.end();
     drop(broker);
     let p = processed.lock().unwrap().clone();
-    (BObs { processed: p, exits }, tr)
+    (BObs { processed: p, exits, panicked }, tr)
 }
 
 pub fn harness_b(a: &Args, shared: &SharedReport, th: bool) {
@@ -465,8 +478,13 @@ pub fn harness_b(a: &Args, shared: &SharedReport, th: bool) {
         }
         let nw = case.scripts.len();
         // 2 workers: all schedules (bound = "infinite"); 3 workers: preemption bound 3 (2 in quick)
-        let bound = if nw == 2 { if th { 1000 } else { 4 } } else if th { 3 } else { 2 };
-        let max_exec = if th { 150_000 } else { 6_000 };
+        let bound = if nw == 2 { if th { 1000 } else { 4 } } else if nw == 3 { if th { 3 } else { 2 } } else if th { 2 } else { 1 };
+        let max_exec: u64 = std::env::var("VERIF_E2_MAXEXEC").ok().and_then(|v| v.parse().ok()).unwrap_or(if th { 150_000 } else if nw == 4 { 15_000 } else { 6_000 });
+        if let Ok(f) = std::env::var("VERIF_E2_ONLY") {
+            if !case.name.contains(&f) {
+                continue;
+            }
+        }
         let mut ex = Explorer::new(bound, max_exec);
         let mut outcomes: BTreeSet<String> = BTreeSet::new();
         let normal = case.scripts.iter().all(|s| matches!(s, Script::Normal));
@@ -495,6 +513,11 @@ pub fn harness_b(a: &Args, shared: &SharedReport, th: bool) {
                     if !count.contains_key(&j) {
                         vs.push(("e2:c05-market-job-lost".into(), format!("job {j} was never processed although no worker stopped early: {:?}", obs.processed)));
                     }
+                }
+            }
+            for w in &obs.panicked {
+                if !matches!(case.scripts[*w], Script::PanicAfter(_)) {
+                    vs.push(("e2:c05-market-call-panicked".into(), format!("worker {w} panicked inside a job market call although its script never panics: {:?}", obs.processed)));
                 }
             }
             if obs.exits != nw {
@@ -537,7 +560,7 @@ pub fn run_c05(a: &Args, shared: &SharedReport) {
         let mut r = shared.lock().unwrap();
         r.rule = "every schedule of the real worker threads at their hook points (lock, condition wait, notify_one choice, yield points before shared-map accesses) up to the preemption bound, for each (model, strategy, threads, block size, stop reason) case and each job-market case; each schedule is one execution of the real code; non-trivial = all (>= 2 threads)".into();
         r.bounds = json!({"preemption_bound": if th {3} else {2}, "checker_cases": "8 zoo graphs x {bfs,dfs,on_demand} x threads x block, + finish_when / target / model panic / dfs+symmetry / simulation cases", "threads": if th {vec![2,3]} else {vec![2]},
-            "market_cases": "5 job trees x {normal, early return, panic} x workers; 2 workers: preemption bound 4 (thorough: unbounded), 3 workers: bound 2 (3)", "execution_cap_per_case": if th {60000} else {8000}, "horizon_steps": 5000});
+            "market_cases": "8 job trees (chains, binary trees, two roots, fans of 4-7) x {normal, early return, panic} x workers; 2 workers: preemption bound 4 (thorough: unbounded), 3 workers: bound 2 (3), 4 workers on the fans: bound 1 (2)", "execution_cap_per_case": if th {60000} else {8000}, "horizon_steps": 5000});
     }
     harness_b(a, shared, th);
     harness_a(a, shared, th, "C05");
@@ -612,19 +635,30 @@ pub fn run_c12_timeouts(a: &Args, shared: &SharedReport) {
         }
         for t in if th { vec![1usize, 2, 3] } else { vec![1usize, 2] } {
             let positions: Vec<usize> = if th { vec![0, 1, 2, 3, 5, 8, 13, 21, 34, 55] } else if shape == "chain" { vec![0, 5, 23] } else { vec![0, 2, 5, 11, 23] };
-            for pos in positions {
+            // before the expiry the workers run either under the default policy (the running thread goes on: with a
+            // narrow frontier the others never even start) or round-robin (every worker has started: on a narrow
+            // frontier all but one sit in the market waiting for work when the timeout fires)
+            for (pos, rr) in positions.iter().flat_map(|p| [(*p, false), (*p, true)]) {
+                if rr && (t == 1 || pos == 0) {
+                    continue;
+                }
                 idx += 1;
                 if idx % a.nshards != a.shard {
                     continue;
                 }
-                let name = format!("{shape}/{st}/T{t}/expiring-timeout/fire-after-{pos}");
-                let rv = json!({"engine": "e2expire", "shape": shape, "strategy": st, "threads": t, "fire_after_decisions": pos});
+                let name = format!("{shape}/{st}/T{t}/expiring-timeout/fire-after-{pos}{}", if rr { "/round-robin" } else { "" });
+                let rv = json!({"engine": "e2expire", "shape": shape, "strategy": st, "threads": t, "fire_after_decisions": pos, "round_robin": rr});
                 begin_case(shared, &name, rv.clone(), "e2:c12-stuck-outside-scheduler");
                 let timer = t; // thread id of "timeout"
                 let horizon = 600;
                 let mut choose = |k: usize, _n: usize, opts: &[usize], _threads: &[TState]| -> usize {
                     if k < pos {
-                        0
+                        if rr {
+                            let want = k % t;
+                            opts.iter().position(|o| *o == want).unwrap_or(0)
+                        } else {
+                            0
+                        }
                     } else {
                         // from now on the timer thread runs whenever it can
                         opts.iter().position(|o| *o == timer).unwrap_or(0)
